@@ -24,8 +24,10 @@ build() { # $1 = output, rest = extra flags
   mv -f "$out.tmp.$$" "$out"
 }
 build "$BIN"
-if [ "$TIER" = "--replay" ]; then exec "$BIN" -replay "$3"; fi
 case "$ID" in
-  C15) build "$BIN-race" -race; export VERIF_RACE_BIN="$PWD/$BIN-race";;
+  C15) build "$BIN-race" -race; export VERIF_RACE_BIN="$PWD/$BIN-race"
+       # a race witness can only reproduce under the race detector
+       if [ "$TIER" = "--replay" ]; then GORACE="halt_on_error=0 exitcode=0" exec "$BIN-race" -replay "$3"; fi;;
 esac
+if [ "$TIER" = "--replay" ]; then exec "$BIN" -replay "$3"; fi
 exec "$BIN" -prop "$ID" -tier "$TIER"
